@@ -1,9 +1,32 @@
 #!/usr/bin/env python3
-"""Writes the prompt given to an independent mutation sub-agent for one property (only the property text, nothing from /verif)."""
-import json, sys
+"""usage: tools/mkprompt.py [--wave N] ID...
+Writes the prompt given to an independent mutation sub-agent for one property: only the property text, the worktree
+path and (from wave 2 on) one-line descriptions of the changes other agents already tried for that property, so that
+new agents look elsewhere. Nothing about /verif, the contracts or the checks is included.
+Output: /tmp/prompt<N>_<ID>.txt, worktree name /tmp/w<N>_<ID>."""
+import json, sys, glob, os
+args = sys.argv[1:]
+wave = None
+if args and args[0] == '--wave':
+    wave = args[1]; args = args[2:]
 T = open('/verif/tools/mutant_prompt.tmpl').read()
 props = {json.loads(l)['id']: json.loads(l) for l in open('/verif/properties.jsonl')}
-for id in sys.argv[1:]:
+for id in args:
     p = props[id]
-    open(f'/tmp/prompt_{id}.txt', 'w').write(T.replace('@ID@', id).replace('@TITLE@', p['title']).replace('@STATEMENT@', p['statement']).replace('@QTEXT@', p['quantifier']['text']))
-    print(f'/tmp/prompt_{id}.txt')
+    wt = f'/tmp/w{wave}_{id}' if wave else f'/tmp/wt_{id}'
+    s = T.replace('/tmp/wt_@ID@', wt).replace('@ID@', id).replace('@TITLE@', p['title']).replace('@STATEMENT@', p['statement']).replace('@QTEXT@', p['quantifier']['text'])
+    if wave:
+        tried = []
+        for d in sorted(glob.glob(f'/verif/seeded/{id}-*') + glob.glob(f'/verif/seeded/_obsolete/{id}-*')):
+            try:
+                m = json.load(open(d + '/meta.json'))
+            except Exception:
+                continue
+            files = ', '.join(m.get('files_changed') or [])
+            tried.append(f"- {files}: {(m.get('summary') or '')[:420]}")
+        if tried:
+            s += "\n\nALREADY TRIED by other people for this property (do NOT repeat these or close variants; pick different functions / different clauses of the property):\n" + "\n".join(tried)
+        s += "\n\nNote: this worktree is a newer revision of the library than earlier ones (several defects were repaired recently), so read the current code rather than assuming."
+    out = f'/tmp/prompt{wave}_{id}.txt' if wave else f'/tmp/prompt_{id}.txt'
+    open(out, 'w').write(s)
+    print(out)
